@@ -8,6 +8,21 @@ CHECKS = {
    note="Trusted: p3-field arithmetic; the harness' reference interpreter (e1.rs). Division-by-zero cases only judged for absence of panics.", ref="DESIGN.md §3 C02", engine="E1"),
 }
 
+CHECKS.update({
+ "C03": dict(cat="exploration", tech="property-based testing (proptest): search for assignments satisfying the emitted ops but violating the source program (independent ops evaluator vs source evaluator)",
+   text="For random programs, assignments derived from the honest one by pinning 1-3 slots and re-deriving the rest over Circuit::ops are judged by an independent evaluator of the op relations; whenever all ops are satisfied, every source relation (definitions, connects, asserts, bit decompositions) must hold. ~130k non-vacuous antecedents per quick run. Exploration only.",
+   note="Trusted: the harness' op semantics (opsem.rs, written from the Op documentation) and source semantics (e1.rs). Fused products nobody else refers to are treated as don't-care slots. Ext (de)composition statements are excluded here (value precondition; see C12).", ref="DESIGN.md §3 C03", engine="E1"),
+ "C09": dict(cat="exploration", tech="property-based testing (proptest): invariant over compiled circuits recomputed from committed preprocessed traces",
+   text="For random programs x packings x 7 field configurations the WitnessChecks interactions of all tables are decoded from the committed preprocessed traces and checked: per-slot multiplicities sum to zero, one creator per read slot, no relation-relevant ALU operand with multiplicity 0 on a slot other rows refer to. Known shapes (two Const/Public creators, Horner positional contract, duplicate NPO outputs) are excluded by construction and replayed as KNOWN-FINDING.",
+   note="Trusted: the documented table layouts as decoded in pv.rs; bus semantics = per-slot signed multiplicity sums (values are consistent on honest traces, which C10 checks dynamically).", ref="DESIGN.md §3 C09", engine="E1"),
+ "C10": dict(cat="exploration", tech="property-based testing (proptest): random satisfying programs x prover configurations, prove + verify with the real prover",
+   text="Random satisfying programs (7 field configurations, lanes 1-4, Horner packing 2-4, min heights, recompose tables) are run, proven with BatchStarkProver and verified; run Ok must imply prove Ok and verify Ok. 6000 proofs per quick run.",
+   note="Trusted: the repo's own StarkConfig presets; p3-batch-stark verifier. Documented UnclaimedPrivateInput cases are discarded (counted).", ref="DESIGN.md §3 C10", engine="E1+E2"),
+ "C18": dict(cat="exploration", tech="property-based testing (proptest) over runtime nondeterminism: repeated compilation in-process and in child processes, canonical digest comparison",
+   text="Each generated program is compiled 6 times in one process (fresh hash seeds per map) and in 3 child processes with different rayon thread counts; a canonical digest of ops, numbering, table degrees/order, preprocessed columns, preprocessed commitment and traces must be identical.",
+   note="Hash seeds and thread schedules are sampled, not controlled; proof bytes are not compared (parallel PoW grinding).", ref="DESIGN.md §3 C18", engine="E1+E5"),
+})
+
 NOT_YET = {}
 
 def main():
